@@ -10,6 +10,8 @@ import Props.C02
 #print axioms SpyneModel.Props.C02.hier_response_fidelity
 #print axioms SpyneModel.Props.C02.facts02_guard
 #print axioms SpyneModel.Props.C02.facts02_bytes_join
+#print axioms SpyneModel.Props.C02.facts02_not_wrapped
+#print axioms SpyneModel.Props.C02.ownSpellG_eq
 #print axioms SpyneModel.Props.C02.hier_encoding_ignores_identity
 #print axioms SpyneModel.Props.C02.hier_aliasing_invisible
 #print axioms SpyneModel.Props.C02.hier_response_fidelity_aliased
